@@ -130,11 +130,18 @@ def interpStep (op : SrvOp) (i : ISt) (st : String) : ISt × String :=
       let i := quiesce cfg { i with acceptHeld := false }
       (i, connOutcome cfg i c false)
     | _ => (i, "")
-  | "q" | "h" =>
+  | "q" | "h" | "he" =>
+    -- (`he`: the handler returns an ordinary error: the reply is the server-failure exception)
     -- (`h`: the rest of the request that `g` began arrives after a pause: from then on an ordinary request)
     if noClient i k then (i, "nc") else
     let i := quiesce cfg { i with s := step cfg i.s (.clientSend k id .normal) }
     (i, replyObs i k id)
+  | "w" =>
+    -- the client writes a request and closes its sending side right behind it: answered, then the connection ends
+    if noClient i k then (i, "nc") else
+    let i := quiesce cfg { i with s := step cfg i.s (.clientSend k id .normal) }
+    let o := replyObs i k id
+    (quiesce cfg { i with s := step cfg i.s (.clientClose k) }, o)
   | "m" =>
     -- 25 requests (ids id .. id+24) written at once: each is answered, in order
     if noClient i k then (i, "nc") else
@@ -317,7 +324,7 @@ def judgeC17 (op : SrvOp) (out : String) : Expect :=
           else if o == "z" then
             if !(b.shutdownCalled || b.cancelled) then b.fail "accepted connection closed by a serving server" else b
           else b
-      | "q" | "h" | "m" =>
+      | "q" | "h" | "m" | "he" =>
         if b.limbo.contains k then b else
         if b.live.contains k && !b.busy.contains k && o != (if verb == "m" then s!"r{id}x25" else s!"r{id}") then b.fail s!"step {st}: no reply on a live connection ({o})" else
         if !b.live.contains k && o.startsWith "r" then b.fail s!"step {st}: reply on a connection that should be closed" else b
@@ -349,6 +356,11 @@ def judgeC17 (op : SrvOp) (out : String) : Expect :=
           else b.fail s!"step {st}: reply on a connection that should be closed"
         else b
       | "d" | "dh" => { b with live := b.live.erase k, busy := b.busy.erase k }
+      | "w" =>
+        let b := if b.limbo.contains k then b else
+          if b.live.contains k && !b.busy.contains k && o != s!"r{id}" then b.fail s!"step {st}: a request followed by the end of the client's stream was not answered ({o})" else
+          if !b.live.contains k && o.startsWith "r" then b.fail s!"step {st}: reply on a connection that should be closed" else b
+        { b with live := b.live.erase k, busy := b.busy.erase k }
       | "xh" => { b with cancelled := true, live := b.live.filter fun c => b.busy.contains c || b.traced.contains c }
       | "sh" | "shx" =>
         -- the first sweep closes every connection that is not handling a request
